@@ -1,6 +1,7 @@
 package main
 
 import (
+	"go/token"
 	"strings"
 
 	"golang.org/x/tools/go/ssa"
@@ -320,6 +321,45 @@ func runC12(r *Run) {
 			}
 			_, hit := reach(entryOf(f), func(in ssa.Instruction) bool { return in == calls[0].Instr }, cut, nil)
 			r.check(len(cut) > 0 && hit == nil, en+":flash-prefilter", r.pos(calls[0].Instr), "flash parsing only runs when the raw headers contain the cookie name", "flash parsing runs for every request")
+			// and the other way round: once the headers mention the cookie nothing else decides whether it is read —
+			// every path from that edge to the route dispatch passes the parser (the method, the path, the context
+			// kind play no part: a 307/308 redirect is followed with the original method)
+			isDispatch := func(in ssa.Instruction) bool {
+				return isCallTo(in, func(n string) bool {
+					return strings.HasSuffix(n, "App).next") || strings.HasSuffix(n, "App).nextCustom")
+				})
+			}
+			isParse := func(in ssa.Instruction) bool { return in == calls[0].Instr }
+			// legitimate ways around the parser: the raw headers are empty / do not mention the cookie
+			absent := map[edge]bool{}
+			for _, c := range callsMatching(f, false, nameIs("bytes.Contains")) {
+				for _, br := range ifsOnValue(f, c.Value()) {
+					if s, ok := br.truthSlot(false); ok {
+						absent[edge{br.If.Block(), s}] = true
+					}
+				}
+			}
+			for _, br := range branchesIn(f) {
+				lc, ok := stripValue(br.Info.Root).(*ssa.Call)
+				if !ok || calleeName(&lc.Call) != "builtin:len" || len(lc.Call.Args) != 1 {
+					continue
+				}
+				if pc, _ := producerCall(lc.Call.Args[0]); pc == nil || !strings.HasSuffix(calleeName(&pc.Call), "RequestHeader).RawHeaders") {
+					continue
+				}
+				if k, ok := constInt(br.Info.Const); ok && k == 0 {
+					switch br.Info.Op {
+					case token.GTR, token.NEQ:
+						absent[edge{br.If.Block(), br.slotWhenRel(false)}] = true
+					case token.EQL, token.LEQ:
+						absent[edge{br.If.Block(), br.slotWhenRel(true)}] = true
+					}
+				}
+			}
+			_, h := reach(entryOf(f), isDispatch, absent, isParse)
+			skipped := h != nil
+			r.check(len(cut) > 0 && !skipped, en+":flash-read-whenever-present", r.pos(calls[0].Instr), "with the `headers empty` / `cookie name absent` edges removed every path to the dispatch parses the flash cookie",
+				"a request that carries the flash cookie can be dispatched without the cookie being read (e.g. only safe methods are looked at): after a 307/308 redirect the POST follow-up sees no messages, the cookie is not expired and the messages surface on a later, unrelated request")
 		}
 		rel := r.Fn("", "(*DefaultCtx).release")
 		ok := len(instrsWhere(rel, isEmptying)) == 1
